@@ -1304,6 +1304,182 @@ def run_loop_info(case):
                                 f"same_size={case['sizes'][0] == case['sizes'][1]}"], "err": e}
 
 
+# ---------------------------------------------------------------------------
+# 12. operator networks: trace and partial transpose (the density-operator side of the property)
+# ---------------------------------------------------------------------------
+
+@st.composite
+def s_operator(draw, tier):
+    fam = draw(st.sampled_from(["graph", "graph", "mpo", "rho_mpo"]))
+    if fam == "graph":
+        desc = draw(s_graph(nmax=5, names=True))
+        desc["phys"] = fit_phys(desc["phys"], 32)
+    else:
+        desc = draw(s_mps(Lmax=5))
+        desc["phys"] = fit_phys(desc["phys"], 32)
+    n = nsites(desc)
+    k = draw(st.integers(1, n))
+    sysa = draw(st.lists(st.integers(0, n - 1), min_size=k, max_size=k, unique=True))
+    return {"fam": fam, "state": desc, "route": draw(st.sampled_from(["trace", "partial_transpose", "partial_transpose"])),
+            "sysa": sysa, "inplace": draw(st.booleans()), "lone": draw(st.booleans()), "keep": draw(st.integers(1, 3))}
+
+
+def build_operator(case):
+    """-> (operator network, sites, physical dims, dense matrix over (uppers, lowers))"""
+    qtn = Q()
+    desc, fam = case["state"], case["fam"]
+    if fam == "graph":
+        n = len(desc["phys"])
+        inds = {i: [] for i in range(n)}
+        sizes = {}
+        for (a, b), D in zip(desc["edges"], desc["bonds"]):
+            l = f"e{a}_{b}"
+            inds[a].append(l)
+            inds[b].append(l)
+            sizes[l] = int(D)
+        sites = [i if desc.get("names", "int") == "int" else f"s{i}" for i in range(n)]
+        ts = []
+        for i in range(n):
+            shape = [sizes[l] for l in inds[i]] + [desc["phys"][i]] * 2
+            ts.append(qtn.Tensor(arr(desc["seed"], i, shape, desc["dtype"]), inds[i] + [f"k{sites[i]}", f"b{sites[i]}"],
+                                 tags=f"I{sites[i]}"))
+        tn = qtn.TensorNetwork(ts)
+        tn.view_as_(qtn.TensorNetworkGenOperator, sites=list(sites), site_tag_id="I{}", upper_ind_id="k{}", lower_ind_id="b{}")
+        phys = list(desc["phys"])
+    elif fam == "mpo":
+        L, cyc, ph, bd = desc["L"], desc["cyclic"], desc["phys"], desc["bonds"]
+        arrs = []
+        for i in range(L):
+            shape = []
+            if cyc or i > 0:
+                shape.append(bd[(i - 1) % L])
+            if cyc or i < L - 1:
+                shape.append(bd[i])
+            arrs.append(arr(desc["seed"], i, shape + [ph[i], ph[i]], desc["dtype"]))
+        tn = qtn.MatrixProductOperator(arrs, shape="lrud")
+        sites, phys = list(range(L)), list(ph)
+    else:
+        # the reduced density operator of an MPS on its first `keep` sites, as an MPO
+        psi, _ = build_mps(desc)
+        k = min(case["keep"], desc["L"])
+        tn = psi.partial_trace_to_mpo(list(range(k)))
+        sites, phys = list(range(k)), list(desc["phys"][:k])
+    up = [tn.upper_ind(x) for x in sites]
+    lo = [tn.lower_ind(x) for x in sites]
+    D = prod(phys)
+    W = einsum_value([(np.asarray(a, dtype=np.complex128), i) for a, i in tn_tensors(tn)], up + lo).reshape(D, D)
+    return tn, sites, phys, W
+
+
+def run_operator(case):
+    tn, sites, phys, W = build_operator(case)
+    n = len(sites)
+    route = case["route"]
+    mag = float(np.prod([max(np.linalg.norm(np.asarray(a)), 1e-300) for a, _ in tn_tensors(tn)]))
+    info = dict(route="op." + route, fam=case["fam"])
+    cls = ["route=" + route, "fam=" + case["fam"], f"n={n}"]
+    if route == "trace":
+        x = guarded(lambda: tn.trace(), **info)
+        e = check_scalar(x, np.trace(W), mag, TOL, **info)
+        if case["fam"] == "rho_mpo":
+            psi, _ = build_mps(case["state"])
+            d = einsum_value([(np.asarray(a, dtype=np.complex128), i) for a, i in tn_tensors(psi)],
+                             [psi.site_ind(i) for i in range(psi.L)]).reshape(-1)
+            e = max(e, check_scalar(x, np.vdot(d, d).real, mag, TOL, clause="trace==<psi|psi>", **info))
+        return {"nt": n >= 2, "cls": cls, "err": e}
+    sysa = [i % n for i in case["sysa"]]
+    sysa = list(dict.fromkeys(sysa))
+    arg = [sites[i] for i in sysa]
+    if len(arg) == 1 and case["lone"]:
+        arg = arg[0]  # documented: a single site is auto-wrapped
+    out = guarded(lambda: tn.partial_transpose(arg, inplace=case["inplace"]), **info)
+    if case["inplace"] and out is not tn:
+        raise Violation("inplace-identity", **info)
+    up = [out.upper_ind(x) for x in sites]
+    lo = [out.lower_ind(x) for x in sites]
+    D = prod(phys)
+    got = einsum_value([(np.asarray(a, dtype=np.complex128), i) for a, i in tn_tensors(out)], up + lo).reshape(D, D)
+    T = W.reshape(phys + phys)
+    perm = list(range(2 * n))
+    for i in sysa:
+        perm[i], perm[n + i] = n + i, i
+    ref = T.transpose(perm).reshape(D, D)
+    e = rel_err(got, ref, floor=mag)
+    if not e <= TOL:
+        raise Violation("partial-transpose-value", err=e, **info)
+    if not case["inplace"]:
+        up0 = [tn.upper_ind(x) for x in sites]
+        lo0 = [tn.lower_ind(x) for x in sites]
+        got0 = einsum_value([(np.asarray(a, dtype=np.complex128), i) for a, i in tn_tensors(tn)], up0 + lo0).reshape(D, D)
+        if not rel_err(got0, W, floor=mag) <= 1e-12:
+            raise Violation("receiver-mutated", **info)
+    return {"nt": n >= 2 and 0 < len(sysa) < n, "cls": cls + [f"nsys={len(sysa)}", f"inplace={case['inplace']}"], "err": e}
+
+
+# ---------------------------------------------------------------------------
+# 13. 1D: compressed partial trace onto two blocks (returned in a compressed basis -> basis independent claims)
+# ---------------------------------------------------------------------------
+
+@st.composite
+def s_ptr_compress(draw, tier):
+    desc = draw(s_mps(Lmin=4, Lmax=7))
+    desc["bonds"] = [max(2, b) for b in desc["bonds"]]  # rank-1 transfer operators belong to the decomposition checks
+    L = desc["L"]
+    a0 = draw(st.integers(0, L - 2))
+    a1 = draw(st.integers(a0, L - 2))
+    b0 = draw(st.integers(a1 + 1, L - 1))
+    b1 = draw(st.integers(b0, L - 1))
+    if draw(st.integers(0, 5)) == 0 and not desc["cyclic"]:
+        a0, a1, b0, b1 = 0, a1, a1 + 1, L - 1  # the two blocks cover an open chain (schmidt-basis shortcut)
+    return {"state": desc, "sysa": list(range(a0, a1 + 1)), "sysb": list(range(b0, b1 + 1)), "renorm": draw(st.booleans()),
+            "leave_short": draw(st.booleans())}
+
+
+def run_ptr_compress(case):
+    s = build_state(case["state"])
+    psi = s.psi
+    sysa, sysb = case["sysa"], case["sysb"]
+    covers = (len(sysa) + len(sysb) == s.n) and not s.desc["cyclic"]
+    info = dict(route="partial_trace_compress", cyclic=s.desc["cyclic"], renorm=case["renorm"], covers=covers, unit=s.unit)
+    rho = guarded(lambda: psi.partial_trace_compress(sysa, sysb, eps=1e-13, renorm=case["renorm"], leave_short=case["leave_short"]),
+                  **info)
+    want = {"kA", "kB", "bA", "bB"}
+    if set(rho.outer_inds()) != want:
+        raise Violation("rho-labels", got=sorted(rho.outer_inds()), **info)
+    dA, dB = rho.ind_size("kA"), rho.ind_size("kB")
+    if rho.ind_size("bA") != dA or rho.ind_size("bB") != dB:
+        raise Violation("rho-shape", **info)
+    M = einsum_value([(np.asarray(a, dtype=np.complex128), i) for a, i in tn_tensors(rho)], ["kA", "kB", "bA", "bB"])
+    M = M.reshape(dA * dB, dA * dB) * 10.0 ** float(getattr(rho, "exponent", 0.0) or 0.0)
+    scale = 1.0 if case["renorm"] else s.nrm
+    tol = 1e-7  # the method is a compression at eps=1e-13 of squared quantities
+    eh = rel_err(M, M.conj().T, floor=scale)
+    if not eh <= tol:
+        raise Violation("rho-not-hermitian", err=eh, **info)
+    et = rel_err(np.trace(M), np.asarray(scale), floor=scale)
+    if not et <= tol:
+        raise Violation("rho-trace", err=et, **info)
+    ref = ref_rho(s, sysa + sysb, case["renorm"])
+    ev = np.sort(np.linalg.eigvalsh((M + M.conj().T) / 2))[::-1]
+    er = np.sort(np.linalg.eigvalsh(ref))[::-1]
+    m = max(len(ev), len(er))
+    ev = np.concatenate([ev, np.zeros(m - len(ev))])
+    er = np.concatenate([er, np.zeros(m - len(er))])
+    e = float(np.max(np.abs(ev - er))) / scale
+    if not e <= tol:
+        raise Violation("rho-spectrum", err=e, **info)
+    # (the schmidt-basis shortcut moves the orthogonality centre of the receiver: a gauge change only, so the claim is
+    # that the receiver still denotes the same state, not that its arrays are untouched)
+    d2 = einsum_value([(np.asarray(a, dtype=np.complex128), i) for a, i in tn_tensors(psi)],
+                      [psi.site_ind(x) for x in s.sites]).reshape(-1)
+    ed = rel_err(d2, s.dense, floor=np.sqrt(s.nrm))
+    if not ed <= 1e-8:
+        raise Violation("state-changed", err=ed, **info)
+    return {"nt": not s.unit or s.desc["cyclic"], "cls": ["cyclic" if s.desc["cyclic"] else "open", f"renorm={case['renorm']}",
+                                                        f"covers={covers}", "unit" if s.unit else "raw",
+                                                        f"gap={sysb[0] - sysa[-1] - 1}"], "err": max(e, eh, et)}
+
+
 SUBCHECKS = [
     SubCheck("ag_exact", run_exact, s_exact, examples=(150, 4000), shards=(1, 4),
              rule="partial_trace_exact (get matrix/array/tensor), local_expectation_exact (matrix / tensor operator), "
@@ -1356,4 +1532,12 @@ SUBCHECKS = [
     SubCheck("loop_info_reuse", run_loop_info, s_loop_info, examples=(100, 2500), shards=(1, 4), min_accept=0.1,
              rule="two successive sloop / gloop expectations (same or different `where`, operator and loop size) sharing one "
                   "`info` cache on the unchanged network and gauges; every call must give its own dense value; all nt"),
+    SubCheck("operator_trace", run_operator, s_operator, examples=(120, 3000), shards=(1, 4),
+             rule="TensorNetworkGenOperator / MPO (and the MPO from partial_trace_to_mpo): trace() == trace of the dense matrix "
+                  "(== <psi|psi> for a reduced state), partial_transpose(sysa: sites in any order or a lone site, inplace) == "
+                  "dense partial transpose, receiver untouched; nt: >= 2 sites and a proper subset transposed"),
+    SubCheck("mps_ptrace_compress", run_ptr_compress, s_ptr_compress, examples=(100, 2500), shards=(1, 4),
+             rule="MatrixProductState.partial_trace_compress(sysa, sysb contiguous blocks, renorm, leave_short) on open / periodic "
+                  "MPS: outer labels kA kB bA bB, Hermitian, trace 1 (renorm) or <psi|psi>, spectrum == spectrum of the dense "
+                  "reduced state of the two blocks (1e-7); nt: raw norm or periodic"),
 ]
